@@ -1,2 +1,549 @@
+"""Compile-and-run oracle for C02 (implementation only, no Lean model involved).
+
+For a generated description (tools/gen/cxxgen.py): real Shroud writes the C wrappers; this module
+writes an instrumented C++ subject library (every function prints what it receives, incl. the id of
+`this`, stores known values into output arguments, returns known values), a C driver that calls
+only functions declared by the generated headers, under the names the documentation's name template
+gives, with boundary values; everything is compiled with -fsanitize=address,undefined and run; the
+trace is compared line by line with the expectation computed here from the declarations."""
+import os
+import re
+import subprocess
+from concurrent.futures import ThreadPoolExecutor
+
+from tools import common, shroudrun
+from tools.gen import cxxgen
+from tools.gen.cxxgen import DBL, ENUM, INT_T, STRS, lit, rep, show
+
+SAN = ["-fsanitize=address,undefined", "-fno-sanitize-recover=undefined", "-g", "-O0"]
+IDS = (11, 22)
+
+
+# ------------------------------------------------------------------ subject library
+def cxx_show(p, i):
+    n = p.name
+    d = n if p.mode != "ptr" else "(*%s)" % n
+    if p.fam in ("native", "bool") and p.t == "T":
+        return "sh_t(%s);" % n
+    if p.fam in ("native", "bool") and p.mode != "val" and p.intent == "out":
+        return 'printf("_");'
+    if p.fam == "native":
+        return show(p.t, d)
+    if p.fam == "bool":
+        return 'printf("%%d", (int)%s);' % d
+    if p.fam == "char":
+        return 'printf("%%d", (int)%s);' % n
+    if p.fam == "cstr":
+        return 'printf("[%%s]", %s);' % n
+    if p.fam == "string":
+        return 'printf("[%%s]", %s.c_str());' % d
+    if p.fam == "enum":
+        return 'printf("%%d", (int)%s);' % n
+    if p.fam == "struct":
+        return 'printf("{%%d,", %s.x); sh_d(%s.y); printf("}");' % (d, d)
+    if p.fam == "class":
+        return 'printf("#%%d", %s.id);' % d
+    raise AssertionError(p.fam)
+
+
+def cxx_set(f, p):
+    if p.mode == "val" or p.const or p.intent == "in":
+        return ""
+    d = p.name if p.mode != "ptr" else "(*%s)" % p.name
+    c = f.consts.get(p.name)
+    if p.fam == "native":
+        return "%s = %s;" % (d, lit(p.t, c))
+    if p.fam == "bool":
+        return "%s = %s;" % (d, "true" if c else "false")
+    if p.fam == "string":
+        return '%s = "%s";' % (d, c)
+    if p.fam == "struct":
+        return "%s.x = %d; %s.y = %s;" % (d, c[0], d, lit("double", c[1]))
+    return ""
+
+
+def cxx_return(f):
+    k = f.ret[0]
+    c = f.consts.get("ret")
+    if k == "void":
+        return ""
+    if k == "native":
+        return "return %s;" % lit(f.ret[1], c)
+    if k == "bool":
+        return "return %s;" % ("true" if c else "false")
+    if k == "enum":
+        return "return %s;" % c[0]
+    if k == "cstr":
+        return 'return "%s";' % c
+    if k == "stringref":
+        return 'static std::string keep("%s"); return keep;' % c
+    if k in ("nativeptr", "nativeref"):
+        return "static %s keep = %s; return %skeep;" % (f.ret[1], lit(f.ret[1], c), "&" if k == "nativeptr" else "")
+    if k == "struct":
+        return "Pt r; r.x = %d; r.y = %s; return r;" % (c[0], lit("double", c[1]))
+    if k == "structptr":
+        return "static Pt keep; keep.x = %d; keep.y = %s; return &keep;" % (c[0], lit("double", c[1]))
+    if k == "classptr":
+        return "static %s keep(%d, true); return &keep;" % (f.ret[1], c)
+    if k in ("classref", "classcref"):
+        return "static %s keep(%d, true); return keep;" % (f.ret[1], c)
+    if k == "classval":
+        return "return %s(%d, true);" % (f.ret[1], c)
+    raise AssertionError(k)
+
+
+def cxx_function(f, in_class):
+    params = [p.cxx_decl() for p in f.params] + ["%s%s = %s" % (p.cxx_type(), p.name, dv) for p, dv in f.defaults]
+    allp = f.params + [p for p, _ in f.defaults]
+    body = ['printf("C %d this=");' % f.fid]
+    if f.kind == "ctor":
+        body.append('printf("new");')
+    elif in_class and not f.static:
+        body.append('printf("%d", id);')
+    else:
+        body.append('printf("-");')
+    for i, p in enumerate(allp):
+        body.append('printf(" p%d=");' % i)
+        body.append(cxx_show(p, i))
+    body.append('printf("\\n");')
+    for p in f.params:
+        s = cxx_set(f, p)
+        if s:
+            body.append(s)
+    if f.kind == "ctor":
+        head = "%s(%s) : id(%s)" % (f.cls, ", ".join(params), "a0" if f.params else "100")
+        if not f.params:
+            body = []          # the default constructor is silent (the wrapper for by-value results uses it)
+    elif f.kind == "dtor":
+        return "    ~%s() { last() = id; }" % f.cls
+    else:
+        body.append("return id;" if (in_class and f.name == "ident") else cxx_return(f))
+        head = "%s%s%s %s(%s)%s" % ("template<typename T> " if f.template else "", "static " if f.static else "",
+                                     cxxgen.ret_cxx(f.ret), f.name, ", ".join(params), " const" if f.const else "")
+        if not in_class:
+            head = "inline " + head if not f.template else head
+    return "    %s {\n        %s\n    }" % (head, "\n        ".join(b for b in body if b))
+
+
+def subject_header(spec):
+    out = ["#ifndef SUBJECT_%s_HPP" % spec.name.upper(), "#define SUBJECT_%s_HPP" % spec.name.upper(),
+           "#include <cstdio>", "#include <cstring>", "#include <string>",
+           "static inline void sh_d(double v) { unsigned long long b; std::memcpy(&b, &v, 8); std::printf(\"%016llx\", b); }",
+           'static inline void sh_t(int v) { std::printf("%lld", (long long)v); }',
+           "static inline void sh_t(double v) { sh_d(v); }",
+           "enum Color { %s };" % ", ".join("%s = %d" % m for m in ENUM),
+           "struct Pt { int x; double y; };"]
+    for c in spec.classes:
+        out.append("class %s {\npublic:\n    int id;" % c)
+        out.append("    static int &last() { static int v = -1; return v; }")
+        out.append("    %s(int a, bool) : id(a) {}" % c)
+        if not any(f.cls == c and f.kind == "ctor" and not f.params for f in spec.funcs):
+            out.append("    %s() : id(100) {}" % c)
+        out.append('    static void operator delete(void *p) { std::printf("DEL %d\\n", last()); ::operator delete(p); }')
+        for f in spec.funcs:
+            if f.cls == c:
+                out.append(cxx_function(f, True))
+        out.append("};")
+    for f in spec.funcs:
+        if f.cls is None and f.ns is None:
+            out.append(cxx_function(f, False))
+    if spec.ns:
+        out.append("namespace %s {" % spec.ns)
+        for f in spec.funcs:
+            if f.ns:
+                out.append(cxx_function(f, False))
+        out.append("}")
+    out.append("#endif")
+    return "\n".join(out) + "\n"
+
+
+# ------------------------------------------------------------------ driver + expectation
+def pick(vals, rnd, i):
+    return vals[(rnd + i) % len(vals)]
+
+
+class Emit:
+    def __init__(self, spec):
+        self.spec = spec
+        self.c = []        # driver statements
+        self.exp = []      # expected trace lines
+        self.ctx = []      # (line index in exp) -> description for replays
+        self.uid = 0
+
+    def struct_t(self):
+        return self.spec.c_prefix() + "pt"
+
+    def cap_t(self, cls):
+        return self.spec.c_prefix() + cls
+
+    def ident_name(self, cls):
+        f = [g for g in self.spec.funcs if g.cls == cls and g.name == "ident"][0]
+        return self.spec.c_names(f)[0][0], f.fid
+
+
+def c_show_native(t, expr):
+    return show(t, expr)
+
+
+def emit_call(E, f, cname, ndef, tt, rnd, self_obj=None):
+    """one call of wrapper `cname` for round `rnd`; appends driver code and expected lines"""
+    spec = E.spec
+    E.uid += 1
+    u = E.uid
+    pre, args, after, exp_in, exp_out, vals = [], [], [], [], [], {}
+    allp = list(f.params) + [p for p, _ in f.defaults[:ndef]]
+    for i, p in enumerate(allp):
+        v = "v%d_%d" % (u, i)
+        t = tt if p.t == "T" else p.t
+        if p.fam == "native":
+            val = pick(DBL if t == "double" else INT_T[t], rnd, i)
+            vals[p.name] = val
+            if p.mode == "val":
+                args.append(lit(t, val))
+                exp_in.append(rep(t, val))
+            else:
+                pre.append("%s %s = %s;" % (t, v, lit(t, val)))
+                args.append("&" + v)
+                exp_in.append("_" if p.intent == "out" else rep(t, val))
+                after.append((i, c_show_native(t, v)))
+                exp_out.append((i, rep(t, val if p.intent == "in" else f.consts[p.name])))
+        elif p.fam == "bool":
+            val = bool((rnd + i) % 2)
+            vals[p.name] = val
+            if p.mode == "val":
+                args.append("true" if val else "false")
+                exp_in.append("%d" % val)
+            else:
+                pre.append("bool %s = %s;" % (v, "true" if val else "false"))
+                args.append("&" + v)
+                exp_in.append("_" if p.intent == "out" else "%d" % val)
+                after.append((i, 'printf("%%d", (int)%s);' % v))
+                exp_out.append((i, "%d" % (val if p.intent == "in" else f.consts[p.name])))
+        elif p.fam == "char":
+            val = pick([65, 122, 32, 126, 48], rnd, i)
+            vals[p.name] = val
+            args.append("(char)%d" % val)
+            exp_in.append("%d" % val)
+        elif p.fam == "cstr":
+            val = pick(STRS, rnd, i)
+            vals[p.name] = val
+            args.append('"%s"' % val)
+            exp_in.append("[%s]" % val)
+        elif p.fam == "string":
+            val = pick(STRS, rnd, i)
+            vals[p.name] = val
+            pre.append('char %s[64] = "%s";' % (v, val))
+            args.append(v)
+            exp_in.append("[]" if p.intent == "out" else "[%s]" % val)
+            after.append((i, 'printf("[%%s]", %s);' % v))
+            exp_out.append((i, "[%s]" % (val if p.intent == "in" else f.consts[p.name])))
+        elif p.fam == "enum":
+            val = pick([m[1] for m in ENUM], rnd, i)
+            vals[p.name] = val
+            args.append("%d" % val)
+            exp_in.append("%d" % val)
+        elif p.fam == "struct":
+            x, y = pick([0, -7, 2147483647], rnd, i), pick([0.5, -1.25, 1e300], rnd, i)
+            vals[p.name] = (x, y)
+            pre.append("%s %s; %s.x = %s; %s.y = %s;" % (E.struct_t(), v, v, lit("int", x), v, lit("double", y)))
+            args.append(v if p.mode == "val" else "&" + v)
+            exp_in.append("{%d,%s}" % (x, rep("double", y)))
+            if p.mode != "val":
+                after.append((i, 'printf("{%%d,", %s.x); sh_d(%s.y); printf("}");' % (v, v)))
+                if p.const:
+                    exp_out.append((i, "{%d,%s}" % (x, rep("double", y))))
+                else:
+                    cx, cy = f.consts[p.name]
+                    exp_out.append((i, "{%d,%s}" % (cx, rep("double", cy))))
+        elif p.fam == "class":
+            obj = "k_%s_a" % p.t
+            vals[p.name] = "object #%d" % IDS[0]
+            args.append(obj if p.mode == "val" else "&" + obj)
+            exp_in.append("#%d" % IDS[0])
+    # defaults not supplied are filled in by C++
+    for p, dv in f.defaults[ndef:]:
+        exp_in.append(rep(p.t, int(dv)))
+    this = "-"
+    if f.kind == "ctor":
+        this = "new"
+    elif self_obj is not None:
+        args.insert(0, "&" + self_obj[0])
+        this = "%d" % self_obj[1]
+    callee = "C %d this=%s%s" % (f.fid, this, "".join(" p%d=%s" % (i, s) for i, s in enumerate(exp_in)))
+    k = f.ret[0]
+    c = f.consts.get("ret")
+    rt = tt if (len(f.ret) > 1 and f.ret[1] == "T") else (f.ret[1] if len(f.ret) > 1 else None)
+    lines = ["{"] + pre
+    exp = [callee]
+    rprint, rexp = "", ""
+    call = "%s(%s)" % (cname, ", ".join(args))
+    if k == "void":
+        lines.append(call + ";")
+    elif k == "native":
+        lines.append("%s r = %s;" % (rt, call))
+        rprint, rexp = c_show_native(rt, "r"), rep(rt, c)
+    elif k == "bool":
+        lines.append("bool r = %s;" % call)
+        rprint, rexp = 'printf("%d", (int)r);', "%d" % c
+    elif k == "enum":
+        lines.append("int r = %s;" % call)
+        rprint, rexp = 'printf("%d", r);', "%d" % c[1]
+    elif k in ("cstr", "stringref"):
+        lines.append("const char *r = %s;" % call)
+        rprint, rexp = 'printf("[%s]", r);', "[%s]" % c
+    elif k in ("nativeptr", "nativeref"):
+        lines.append("%s *r = %s;" % (rt, call))
+        rprint, rexp = c_show_native(rt, "*r"), rep(rt, c)
+    elif k == "struct":
+        lines.append("%s r = %s;" % (E.struct_t(), call))
+        rprint, rexp = 'printf("{%d,", r.x); sh_d(r.y); printf("}");', "{%d,%s}" % (c[0], rep("double", c[1]))
+    elif k == "structptr":
+        lines.append("%s *r = %s;" % (E.struct_t(), call))
+        rprint, rexp = 'printf("{%d,", r->x); sh_d(r->y); printf("}");', "{%d,%s}" % (c[0], rep("double", c[1]))
+    elif k.startswith("class"):
+        cap = E.cap_t(f.ret[1])
+        iname, ifid = E.ident_name(f.ret[1])
+        args.append("&rv")
+        call = "%s(%s)" % (cname, ", ".join(args))
+        lines.append("%s rv; %s *r = %s;" % (cap, cap, call))
+        lines.append("int idr = %s(r);" % iname)
+        exp.append("C %d this=%d" % (ifid, c))
+        rprint, rexp = 'printf("%d#%d", (int)(r == &rv), idr);', "1#%d" % c
+    rline = 'printf("R %d ret=");' % f.fid
+    lines.append(rline + (rprint or 'printf("-");'))
+    e = "R %d ret=%s" % (f.fid, rexp or "-")
+    for (i, code), (_, ev) in zip(after, exp_out):
+        lines.append('printf(" o%d=");' % i + code)
+        e += " o%d=%s" % (i, ev)
+    lines.append('printf("\\n");')
+    lines.append("}")
+    exp.append(e)
+    for ln in exp:
+        E.ctx.append({"function": "%s (%s)" % (spec.fdecl(f)["decl"], cname), "values": vals, "func": f})
+    E.exp += exp
+    E.c += lines
+
+
+def build_driver(spec, headers, rounds):
+    E = Emit(spec)
+    P = spec.c_prefix()
+    E.c += ["static void sh_d(double v) { unsigned long long b; memcpy(&b, &v, 8); printf(\"%016llx\", b); }", "int main(void) {",
+            "setvbuf(stdout, NULL, _IONBF, 0);"]
+    # objects of every class: a (id 11) is passed as argument, b (id 22) is `this`
+    for c in spec.classes:
+        ctor = [f for f in spec.funcs if f.cls == c and f.kind == "ctor" and f.params][0]
+        cname = spec.c_names(ctor)[0][0]
+        cap = E.cap_t(c)
+        iname, ifid = E.ident_name(c)
+        for tag, idv in zip("ab", IDS):
+            obj = "k_%s_%s" % (c, tag)
+            E.c += ["%s %s; { %s *pc = %s(%d, &%s); printf(\"R %d ret=%%d\\n\", (int)(pc == &%s)); }" % (
+                cap, obj, cap, cname, idv, obj, ctor.fid, obj)]
+            E.exp += ["C %d this=new p0=%d" % (ctor.fid, idv), "R %d ret=1" % ctor.fid]
+            E.ctx += [{"function": "%s (%s)" % (spec.fdecl(ctor)["decl"], cname), "values": {"a0": idv}, "func": ctor}] * 2
+            E.c += ['printf("R %d ret=%%d\\n", %s(&%s));' % (ifid, iname, obj)]
+            E.exp += ["C %d this=%d" % (ifid, idv), "R %d ret=%d" % (ifid, idv)]
+            E.ctx += [{"function": "ident after %s" % cname, "values": {"a0": idv}, "func": ctor}] * 2
+        dflt = [f for f in spec.funcs if f.cls == c and f.kind == "ctor" and not f.params]
+        if dflt:
+            cname = spec.c_names(dflt[0])[0][0]
+            E.c += ["%s k_%s_c; %s(&k_%s_c);" % (cap, c, cname, c), 'printf("R %d ret=%%d\\n", %s(&k_%s_c));' % (ifid, iname, c)]
+            E.exp += ["C %d this=100" % ifid, "R %d ret=100" % ifid]
+            E.ctx += [{"function": "%s (%s)" % (spec.fdecl(dflt[0])["decl"], cname), "values": {}, "func": dflt[0]}] * 2
+    for f in spec.funcs:
+        if f.kind in ("ctor", "dtor") or f.name == "ident":
+            continue
+        for cname, ndef, tt in spec.c_names(f):
+            for rnd in range(rounds):
+                so = None
+                if f.cls and not f.static:
+                    so = ("k_%s_b" % f.cls, IDS[1])
+                emit_call(E, f, cname, ndef, tt, rnd, self_obj=so)
+    for c in spec.classes:
+        dtor = [f for f in spec.funcs if f.cls == c and f.kind == "dtor"][0]
+        cname = spec.c_names(dtor)[0][0]
+        for tag, idv in zip("ba", (IDS[1], IDS[0])):
+            obj = "k_%s_%s" % (c, tag)
+            E.c += ['%s(&%s); printf("R %d ret=%%d\\n", (int)(%s.addr == NULL));' % (cname, obj, dtor.fid, obj)]
+            E.exp += ["DEL %d" % idv, "R %d ret=1" % dtor.fid]
+            E.ctx += [{"function": "%s (%s)" % (spec.fdecl(dtor)["decl"], cname), "values": {"this": idv}, "func": dtor}] * 2
+    E.c += ["return 0;", "}"]
+    head = ["#include <stdio.h>", "#include <string.h>", "#include <stdbool.h>"] + ['#include "%s"' % h for h in headers]
+    return "\n".join(head + E.c) + "\n", E
+
+
+# ------------------------------------------------------------------ running
+def sh(cmd, cwd, timeout=600, env=None):
+    p = subprocess.run(cmd, cwd=cwd, stdout=subprocess.PIPE, stderr=subprocess.STDOUT, text=True, timeout=timeout, env=env)
+    return p.returncode, p.stdout
+
+
+def kind_key(f):
+    return "%s(%s)" % ("/".join(str(x) for x in f.ret), ",".join(p.key() for p in f.params))
+
+
+def find_function_for_error(d, log, spec):
+    """map the first compiler error to the wrapped function whose wrapper contains it"""
+    m = re.search(r"^(\S+?\.(?:cpp|c|h|hpp)):(\d+):\d+: error: (.*)$", log, re.M)
+    if not m:
+        return None, log[-600:]
+    fn, ln, msg = m.group(1), int(m.group(2)), m.group(3)
+    try:
+        src = open(os.path.join(d, os.path.basename(fn))).read().split("\n")
+    except OSError:
+        return None, msg
+    names = {}
+    for f in spec.funcs:
+        for cname, _, _ in spec.c_names(f):
+            names[cname] = f
+    for i in range(min(ln, len(src)) - 1, -1, -1):
+        mm = re.search(r"\b(\w+)\(", src[i])
+        if mm and mm.group(1) in names and not src[i].startswith(" "):
+            return names[mm.group(1)], "%s:%d: %s | %s" % (os.path.basename(fn), ln, msg, src[ln - 1].strip())
+    return None, "%s:%d: %s | %s" % (os.path.basename(fn), ln, msg, src[ln - 1].strip() if ln <= len(src) else "")
+
+
+def compile_and_run(d, spec, rounds):
+    """returns dict(status, ...)"""
+    files = sorted(os.listdir(d))
+    cpps = [f for f in files if f.endswith(".cpp")]
+    headers = [f for f in files if f.startswith("wrap") and f.endswith(".h")]
+    open(os.path.join(d, spec.name + ".hpp"), "w").write(subject_header(spec))
+    drv, E = build_driver(spec, headers, rounds)
+    open(os.path.join(d, "driver.c"), "w").write(drv)
+    objs = []
+    for c in cpps:
+        rc, out = sh(["g++", "-std=c++17", "-c", "-I.", c, "-o", c + ".o"] + SAN, d)
+        if rc:
+            return {"status": "wrapper-compile", "log": out, "E": E}
+        objs.append(c + ".o")
+    rc, out = sh(["gcc", "-std=c99", "-c", "-I.", "driver.c", "-o", "driver.o", "-Werror=implicit-function-declaration",
+                  "-Werror=incompatible-pointer-types", "-Werror=int-conversion"] + SAN, d)
+    if rc:
+        return {"status": "driver-compile", "log": out, "E": E}
+    rc, out = sh(["g++", "driver.o"] + objs + ["-o", "prog"] + SAN, d)
+    if rc:
+        return {"status": "link", "log": out, "E": E}
+    env = dict(os.environ, ASAN_OPTIONS="detect_leaks=0:abort_on_error=0", UBSAN_OPTIONS="print_stacktrace=0")
+    try:
+        rc, out = sh([os.path.join(d, "prog")], d, timeout=120, env=env)
+    except subprocess.TimeoutExpired:
+        return {"status": "timeout", "log": "", "E": E}
+    return {"status": "ran", "rc": rc, "out": out, "E": E}
+
+
+def first_diff(exp, act):
+    for i, (a, b) in enumerate(zip(exp, act)):
+        if a != b:
+            return i
+    if len(exp) != len(act):
+        return min(len(exp), len(act))
+    return None
+
+
+def token_diff(e, a):
+    et, at = e.split(" "), a.split(" ")
+    for x, y in zip(et, at):
+        if x != y:
+            return x.split("=")[0]
+    return "length"
+
+
+def judge(ctx, spec, res, ytext):
+    E = res["E"]
+    st = res["status"]
+    if st == "wrapper-compile":
+        f, msg = find_function_for_error("", res["log"], spec) if False else (None, None)
+        return ("compile", res["log"])
+    return None
+
+
 def run(ctx, thorough):
-    pass
+    r = common.rng("c02-oracle")
+    nlib = 16 if thorough else 4
+    rounds = 5 if thorough else 3
+    work = common.scratch()
+    jobs = []
+    kinds = {}
+    try:
+        for i in range(nlib):
+            spec = cxxgen.gen_spec(r, "og%d" % i, rich=True)
+            d = os.path.join(work, "o%d" % i)
+            os.makedirs(d)
+            y = shroudrun.write_yaml(d, spec.name + ".yaml", spec.yaml())
+            cfg, exc, out = shroudrun.run_inproc([y], d)
+            if exc is not None:
+                ctx.fail("c02:shroud-exception:%s" % type(exc).__name__, "Shroud failed on a generated description: %r" % (exc,),
+                         {"yaml": spec.yaml()})
+                continue
+            jobs.append((spec, d))
+        with ThreadPoolExecutor(max_workers=min(8, max(1, len(jobs)))) as ex:
+            results = list(ex.map(lambda j: compile_and_run(j[1], j[0], rounds), jobs))
+        ncalls = 0
+        for (spec, d), res in zip(jobs, results):
+            E = res["E"]
+            ytext = spec.yaml()
+            st = res["status"]
+            if st in ("wrapper-compile", "driver-compile", "link"):
+                f, msg = find_function_for_error(d, res["log"], spec)
+                if st == "link":
+                    m = re.search(r"undefined reference to `(\w+)'", res["log"])
+                    msg = "undefined reference to %s" % (m.group(1) if m else "?")
+                    names = {cn: g for g in spec.funcs for cn, _, _ in spec.c_names(g)}
+                    f = names.get(m.group(1)) if m else None
+                if st == "driver-compile" and f is None:
+                    m = re.search(r"implicit declaration of function .(\w+)", res["log"])
+                    if m:
+                        names = {cn: g for g in spec.funcs for cn, _, _ in spec.c_names(g)}
+                        f = names.get(m.group(1))
+                        msg = "the documented C name %s is not declared by the generated headers" % m.group(1)
+                key = "c02:%s:%s" % (st, kind_key(f) if f else "unattributed")
+                ctx.fail(key, "generated C API does not build (%s): %s" % (st, msg),
+                         {"yaml": ytext, "function": spec.fdecl(f)["decl"] if f else None, "log": res["log"][-1500:]})
+                continue
+            if st == "timeout":
+                ctx.fail("c02:timeout", "driver did not terminate", {"yaml": ytext})
+                continue
+            act = [l for l in res["out"].split("\n") if l != ""]
+            exp = E.exp
+            ncalls += len(exp)
+            i = first_diff(exp, act)
+            for c in E.ctx:
+                f = c["func"]
+                kinds[kind_key(f)] = 1
+                for p in f.params:
+                    ctx.nontrivial(("param", p.key()))
+                ctx.nontrivial(("ret", f.ret[0], f.kind, bool(f.cls), f.static, f.const))
+            if i is None and res["rc"] == 0:
+                continue
+            if i is None:
+                ctx.fail("c02:sanitizer-or-exit", "driver exit code %s with a matching trace" % res["rc"],
+                         {"yaml": ytext, "tail": res["out"][-1500:]})
+                continue
+            e = exp[i] if i < len(exp) else "<end>"
+            a = act[i] if i < len(act) else "<end>"
+            c = E.ctx[min(i, len(E.ctx) - 1)]
+            f = c["func"]
+            tok = token_diff(e, a) if e != "<end>" and a != "<end>" else "length"
+            side = "received" if e.startswith("C ") else ("returned" if tok == "ret" else "output")
+            pk = ""
+            m = re.match(r"[po](\d+)$", tok)
+            allp = list(f.params) + [p for p, _ in f.defaults]
+            if m and int(m.group(1)) < len(allp):
+                pk = allp[int(m.group(1))].key()
+            elif tok == "this":
+                side, pk = "this", "%s%s" % (f.kind, ":const" if f.const else "")
+            elif tok == "ret":
+                pk = "/".join(str(x) for x in f.ret)
+            if "ERROR: AddressSanitizer" in res["out"] or "runtime error" in res["out"]:
+                side = "sanitizer-" + side
+            ctx.fail("c02:%s:%s" % (side, pk or tok),
+                     "calling the wrapper differs from the C++ call for %s: expected trace `%s`, got `%s`" % (c["function"], e, a),
+                     {"yaml": ytext, "function": c["function"], "values": c["values"], "expected": e, "actual": a,
+                      "sanitizer": [l for l in res["out"].split("\n") if "Sanitizer" in l or "runtime error" in l][:3]})
+        ctx.count(ncalls)
+        ctx.note("oracle_libraries", len(jobs))
+        ctx.note("oracle_trace_lines", ncalls)
+        ctx.note("oracle_function_kinds", len(kinds))
+    finally:
+        common.rmtree(work)
